@@ -601,6 +601,11 @@ def levels_tie(model):
     return bad
 
 
+def _short(s, n=90):
+    s = repr(s)
+    return s if len(s) <= n else s[: n - 3] + "..."
+
+
 def main(argv=None):
     ap = argparse.ArgumentParser(description=__doc__.split("\n")[0])
     ap.add_argument("--seed", type=int, default=0)
@@ -642,14 +647,13 @@ def main(argv=None):
             failed = res is not None and res["oracle"]
             if in_known_boundary(case) and failed:
                 inb_fail += 1
-            if (predicted_reject(case) or in_lexing_boundary(case)) == failed or \
-                    (in_lexing_boundary(case) and not failed):
+            if predicted_reject(case) == failed or in_lexing_boundary(case):
                 pred_ok += 1
             else:
                 pred_bad += 1
         if res is None:
             continue
-        if res["lexing"]:
+        if res["lexing"] and res["correspondence"]:
             lexing.append(res)
             continue
         if res["correspondence"]:
@@ -672,12 +676,12 @@ def main(argv=None):
           "boundary of parse_render_partial) + %d NEW"
           % (len(oracle_known) + len(oracle_new), len(oracle_known), len(oracle_new)))
     for r in oracle_known[: args.show]:
-        print("    KNOWN-FINDING F-C03-1", repr(r["text"]), "->", r["real"], "| expected", r["expected"])
+        print("    KNOWN-FINDING F-C03-1", _short(r["text"]), "->", _short(r["real"]), "| expected", _short(r["expected"]))
     for r in oracle_new[: args.show]:
         print("    NEW", repr(r["text"]), "->", r["real"], "| expected", r["expected"])
     print("KNOWN-FINDING F-C03-2 (exponent literal glued to a dotted word, lexing level):", len(lexing))
     for r in lexing[: args.show]:
-        print("    KNOWN-FINDING F-C03-2", repr(r["text"]), "->", r["real"], "| expected", r["expected"])
+        print("    KNOWN-FINDING F-C03-2", _short(r["text"]), "->", _short(r["real"]), "| model", _short(r["model"]))
     print("valid cases inside the boundary: %d, of which the real parser fails: %d" % (inb, inb_fail))
     print("sharp prediction (predicted_reject) right on %d valid cases, wrong on %d" % (pred_ok, pred_bad))
     ok = not corr_bad and not oracle_new and not tie
